@@ -37,13 +37,13 @@ def effective_cfg(run):
     return name, weak
 
 
-def design(run, mode, segs2, segs4, thorough):
+def design(run, mode, segs2, segs4, coverage):
     cfg = "MCAs4_%s_%d_%d.cfg" % (mode, segs2, segs4)
     if mode == "rt":
         invs = ["T_DownWellFormed", "T_RoundTrip", "T_RtMech"]
     else:
         invs = ["T_UpSegsOK", "T_UpSameCount", "T_UpIgnoreLonger", "T_UpKeepsConfed", "T_MechTotal",
-                "T_MechOK", "T_KF_A_Tight", "T_KF_B_Tight", "T_KF_Disjoint"]
+                "T_MechOK", "T_KF_A_Tight", "T_KF_B_Tight", "T_KF_Disjoint", "T_MechFixedOK"]
     v.write_cfg(run.sc, cfg, """SPECIFICATION Spec
 CONSTANTS
   MaxSeg = 3
@@ -54,7 +54,7 @@ CONSTANTS
 INVARIANTS
 %s
 """ % (mode, segs2, segs4, "\n".join("  " + i for i in invs)))
-    res = v.tlc(run.sc, "MCAs4", cfg, timeout=1500, deadlock=False, coverage=thorough)
+    res = v.tlc(run.sc, "MCAs4", cfg, timeout=1500, deadlock=False, coverage=coverage)
     run.design(res, "MCAs4 %s: AS_PATH <= %d segments%s, lengths 1..3, MaxSeg 3"
                % (mode, segs2, (" x AS4_PATH <= %d segments" % segs4) if mode == "pair" else ""))
 
@@ -100,6 +100,27 @@ INVARIANTS
     return behs
 
 
+def staged_validate(run, eff, traces, behs, g, chunk):
+    """run.validate costs several TLC runs per failing trace, so a change that breaks a large part of
+    the family must not be validated in one go: first a canary of 16 schedules spread over the
+    family, then chunks; stop at the first chunk with a violation or gap (the verdict is then
+    settled, with replay files).  The informational mechanism-conformance pass is dropped once it
+    has reported a mismatch."""
+    n = len(traces)
+    k = min(n, 16)
+    canary = sorted(set(int(i * n / k) for i in range(k)))
+    cs = set(canary)
+    rest = [i for i in range(n) if i not in cs]
+    for ch in [canary] + [rest[i:i + chunk] for i in range(0, len(rest), chunk)]:
+        if not ch:
+            continue
+        run.validate("As4Trace", eff, [traces[i] for i in ch], [behs[i] for i in ch], group=g,
+                     conf_cfg=None if run.conf_mismatch else "As4Conf.cfg", batch=chunk)
+        if run.violations or run.gaps:
+            return False
+    return True
+
+
 def kf_class(beh):
     """Only used to pick a few schedules for the KNOWN-FINDING demonstration (no verdict)."""
     b = json.loads(beh)
@@ -141,13 +162,13 @@ def families(thorough):
         dict(name="rt-small", mode="rt", segs2=3, lens2=[1, 2], pats2=P4, mod=1),
         dict(name="rt-long", mode="rt", segs2=2, lens2=[1, 2, 254, 255], pats2=P4, long=True, mod=1),
         dict(name="rt-long3", mode="rt", segs2=3, lens2=[1, 254, 255], pats2=["none", "last", "all"],
-             long=True, mod=5),
+             long=True, mod=6),
         dict(name="pair-small", mode="pair", segs2=3, segs4=3, lens2=[1, 2], lens4=[1, 2],
-             pats2=["last"], pats4=["all"], mod=12),
+             pats2=["last"], pats4=["all"], mod=20),
         dict(name="pair-long", mode="pair", segs2=2, segs4=2, lens2=[1, 2, 254, 255],
-             lens4=[1, 2, 254, 255], pats2=["last"], pats4=["all"], long=True, mod=6),
+             lens4=[1, 2, 254, 255], pats2=["last"], pats4=["all"], long=True, mod=10),
         dict(name="pair-long3", mode="pair", segs2=3, segs4=2, lens2=[1, 255], lens4=[2, 254, 255],
-             pats2=["none"], pats4=["last"], long=True, mod=8),
+             pats2=["none"], pats4=["last"], long=True, mod=12),
         MERGE,
     ]
 
@@ -157,28 +178,36 @@ def main(run: Run):
     # 1. design level: RFC-level Down/Up satisfy the C14 statements on every small case; the
     #    gobgp-shaped mechanism equals the RFC outside the (tight) known-finding predicates
     design(run, "rt", 3, 0, thorough)
-    design(run, "pair", 3, 3 if thorough else 2, thorough)
+    design(run, "pair", 3, 2, thorough)
+    if thorough:
+        design(run, "pair", 3, 3, False)      # 1.86 M pairs; action coverage is taken from the run above
 
     eff, weak = effective_cfg(run)
-    shown = set()
-    for fam in families(thorough):
-        g = fam["name"]
+    fams = families(thorough)
+    for g in ("rt", "pair"):
         t0 = time.time()
-        behs = run.replay_behaviours(g) if run.replay else gen(run, fam)
+        if run.replay:
+            behs = run.replay_behaviours(g)
+        else:
+            behs = []
+            for fam in fams:
+                if fam["mode"] == g:
+                    behs += gen(run, fam)
         if not behs:
             continue
         # 2./3. execute on the real conversion code
         traces = run.execute("c14", "internal/pkg/table", "^TestVerifC14$", behs, tag="c14-" + g)
         # 4. validate everything against the effective cfg: any failure is a violation
         t1 = time.time()
-        run.validate("As4Trace", eff, traces, behs, group=g, conf_cfg="As4Conf.cfg",
-                     batch=800 if (fam.get("long") or g == "pair-merge") else 4000)
-        v.log("family %s: %d schedules; generate+execute %.1fs, validate %.1fs"
+        ok = staged_validate(run, eff, traces, behs, g, 2500)
+        v.log("group %s: %d schedules; generate+execute %.1fs, validate %.1fs"
               % (g, len(behs), t1 - t0, time.time() - t1))
-        # known findings: show, on a few schedules of each class, that the STRICT invariant fails
+        if not ok:
+            v.log("violations found in group %s: nothing further is run" % g)
+            return
+        # known findings: show, on one schedule of each class, that the STRICT invariant fails
         # and only the finding's weakened form holds (prints KNOWN-FINDING, suppresses nothing else)
-        if weak and not run.replay and fam["mode"] not in shown and not fam.get("long"):
-            shown.add(fam["mode"])
+        if weak and not run.replay:
             pick, seen = [], set()
             for i, b in enumerate(behs):
                 c = kf_class(b)
